@@ -38,6 +38,11 @@ type Sym struct {
 	a  []interface{}
 	// integer interval known at construction (nil = unbounded)
 	lo, hi *big.Int
+	// known length of a string term (set when the constructor knows it)
+	ln interface{}
+	// heavy: expensive for the solver (large regular expressions); such
+	// conditions are kept out of feasibility queries (see Path.lazy)
+	heavy bool
 }
 
 func (s *Sym) String() string { return s.e }
@@ -146,7 +151,7 @@ func (p *Path) ivOf(v value) (lo, hi *big.Int) {
 		return bi(v), bi(v)
 	case *Sym:
 		lo, hi = v.lo, v.hi
-		if v.op == "var" {
+		if v.op == "var" || v.op == "len" {
 			if iv, ok := p.varIv[v.e]; ok {
 				if iv.lo != nil && (lo == nil || iv.lo.Cmp(lo) > 0) {
 					lo = iv.lo
@@ -173,7 +178,7 @@ func mkNot(x value) value {
 		if x.op == "not" {
 			return x.a[0]
 		}
-		return &Sym{sort: SBool, e: "(not " + x.e + ")", op: "not", a: []interface{}{x}}
+		return &Sym{sort: SBool, e: "(not " + x.e + ")", op: "not", a: []interface{}{x}, heavy: x.heavy}
 	}
 	panic("mkNot")
 }
@@ -294,6 +299,11 @@ func (p *Path) mkIntCmp(op string, x, y value) value {
 			return xc >= yc
 		case "=":
 			return xc == yc
+		}
+	}
+	if xs, ok := x.(*Sym); ok {
+		if ys, ok := y.(*Sym); ok && xs.e == ys.e {
+			return op == "<=" || op == ">=" || op == "="
 		}
 	}
 	// decide by intervals when possible
@@ -490,10 +500,17 @@ func (p *Path) mkLen(s value) value {
 	case string:
 		return int64(len(s))
 	case *Sym:
-		if s.op == "lenknown" {
-			return s.a[0]
+		if s.ln != nil {
+			return s.ln
 		}
-		return &Sym{sort: SInt, e: "(str.len " + s.e + ")", lo: bigZero, hi: bi(maxStrLen)}
+		if s.op == "concat" {
+			var total value = int64(0)
+			for _, sg := range s.a {
+				total = p.mkAdd(total, p.mkLen(sg))
+			}
+			return total
+		}
+		return &Sym{sort: SInt, e: "(str.len " + s.e + ")", op: "len", lo: bigZero, hi: bi(maxStrLen)}
 	}
 	panic(fmt.Sprintf("mkLen %T", s))
 }
@@ -561,16 +578,52 @@ func (p *Path) mkSubstr(s, off, n value) value {
 	}
 	if ook && oc == 0 {
 		// s[0:len(s)] == s
-		if ns, ok := n.(*Sym); ok {
-			if ss, ok := s.(*Sym); ok && ns.e == "(str.len "+ss.e+")" {
-				return s
-			}
-		}
-		if sok && nok && int(nc) == len(sc) {
+		if tInt(n) == tInt(p.mkLen(s)) {
 			return s
 		}
 	}
-	return &Sym{sort: SStr, e: "(str.substr " + tStr(s) + " " + tInt(off) + " " + tInt(n) + ")"}
+	// prefix that drops k bytes of a concrete last segment
+	if ook && oc == 0 {
+		segs := segmentsOf(s)
+		if len(segs) > 1 {
+			if last, ok := segs[len(segs)-1].(string); ok {
+				total := p.mkLen(s)
+				for k := 1; k <= len(last); k++ {
+					if tInt(n) == tInt(p.mkSub(total, int64(k))) {
+						return mkConcat(concatOf(segs[:len(segs)-1]), last[:len(last)-k])
+					}
+				}
+			}
+		}
+	}
+	// prefix of a concatenation that ends exactly at a segment boundary
+	if ook && oc == 0 {
+		segs := segmentsOf(s)
+		if len(segs) > 1 {
+			var acc value = int64(0)
+			for k, sg := range segs {
+				acc = p.mkAdd(acc, p.mkLen(sg))
+				if tInt(acc) == tInt(n) {
+					return concatOf(segs[:k+1])
+				}
+			}
+		}
+	}
+	// suffix of a concatenation that starts exactly at a segment boundary
+	if segs := segmentsOf(s); len(segs) > 1 {
+		var acc value = int64(0)
+		for k, sg := range segs[:len(segs)-1] {
+			acc = p.mkAdd(acc, p.mkLen(sg))
+			if tInt(acc) == tInt(off) {
+				rest := concatOf(segs[k+1:])
+				if tInt(p.mkLen(rest)) == tInt(n) {
+					return rest
+				}
+				return p.mkSubstr(rest, int64(0), n)
+			}
+		}
+	}
+	return &Sym{sort: SStr, e: "(str.substr " + tStr(s) + " " + tInt(off) + " " + tInt(n) + ")", ln: n}
 }
 
 // mkAt: byte value s[i] as Int (bounds checked by caller).
@@ -647,7 +700,7 @@ func (p *Path) containsV(s, sub value) value {
 					return true
 				}
 			case *Sym:
-				if !p.facts["nc|"+sg.e+"|"+c] {
+				if !p.noContain(sg.e, c) {
 					all = false
 				}
 			}
@@ -681,6 +734,42 @@ func mkSuffixOf(suf, s value) value {
 		return true
 	}
 	return &Sym{sort: SBool, e: "(str.suffixof " + tStr(suf) + " " + tStr(s) + ")"}
+}
+
+// suffixV is mkSuffixOf with syntactic reasoning for a one-byte suffix over
+// concatenations whose tail segments are concrete or known not to end with it.
+func (p *Path) suffixV(suf, s value) value {
+	c, ok := suf.(string)
+	if !ok || len(c) != 1 {
+		return mkSuffixOf(suf, s)
+	}
+	segs := segmentsOf(s)
+	for k := len(segs) - 1; k >= 0; k-- {
+		switch sg := segs[k].(type) {
+		case string:
+			if sg != "" {
+				return strings.HasSuffix(sg, c)
+			}
+		case *Sym:
+			if a, ok := p.alpha[sg.e]; ok && !a[c[0]] {
+				p.facts["noend|"+sg.e+"|"+c] = true
+			}
+			if p.facts["noend|"+sg.e+"|"+c] {
+				// empty or not ending with c: the answer is decided further left
+				// only if the segment is empty; if a concrete non-matching byte
+				// precedes, the whole answer is false
+				if k > 0 {
+					if prev, ok := segs[k-1].(string); ok && prev != "" && !strings.HasSuffix(prev, c) {
+						return false
+					}
+				} else {
+					return false
+				}
+			}
+			return mkSuffixOf(suf, concatOf(segs[k:]))
+		}
+	}
+	return false
 }
 
 func (p *Path) mkIndexOf(s, sub, from value) value {
